@@ -87,7 +87,9 @@ def locate_states(obs, ref, check_smap=True):
 def check_arg_values(obs, ref, vectorized):
     """Returned argument values are the declared (overridden) values of the variables they are named after."""
     n_checked = 0
-    for name, val in zip(obs['names'][3:], obs['args'][3:]) if obs['names'][2] == 'dy' else zip(obs['names'][2:], obs['args'][2:]):
+    for name, val in zip(obs['names'], obs['args']):
+        if name in ('t', 'y', 'dy', 'hist') or callable(val):
+            continue
         parts = name.split('/')
         if len(parts) < 3:
             continue
@@ -118,7 +120,7 @@ def perturb_params(obs, ref, rnd, frac=1.0):
     byval = {}
     for k, v in p.items():
         byval.setdefault(float(v), []).append(k)
-    start = 3 if (len(obs['names']) > 2 and obs['names'][2] == 'dy') else 2
+    start = max([i for i, n in enumerate(obs['names']) if n in ('t', 'y', 'dy', 'hist')]) + 1
     new_args = list(obs['args'][:start])
     pairs = [(e['src'], e['tgt']) for e in ref.edges]
     parallel = len(set(pairs)) != len(pairs)
@@ -163,10 +165,10 @@ def call_vf(obs, args, y, t=0):
     return np.array(out, dtype=float, copy=True).ravel()
 
 
-def ref_rhs_checked(ref, ydict, p, mp, t=0.0, delayed=None, inputs=None):
+def ref_rhs_checked(ref, ydict, p, mp, t=0.0, delayed=None, inputs=None, hist=None):
     """Reference derivative in float64 and mpmath; returns (values dict, illconditioned flag)."""
-    f64, _ = ref.rhs(ydict, p, t, delayed, inputs=inputs)
-    fmp, _ = ref.rhs(ydict, p, t, delayed, mp=mp, inputs=inputs)
+    f64, _ = ref.rhs(ydict, p, t, delayed, inputs=inputs, hist=hist)
+    fmp, _ = ref.rhs(ydict, p, t, delayed, mp=mp, inputs=inputs, hist=hist)
     ill = False
     out = {}
     for k in f64:
